@@ -33,14 +33,13 @@ func crashLine(captured string) string {
 			strings.HasPrefix(l, "unexpected fault address") || strings.Contains(l, "SIGSEGV") || strings.Contains(l, "SIGBUS")) {
 			msg = l
 		}
-		if msg != "" && strings.Contains(l, libPathPrefix) && !strings.Contains(l, "zz_simrt") {
+		if msg != "" && strings.Contains(l, modulePath()+"/") && !strings.Contains(l, "zz_simrt") {
 			return msg
 		}
 	}
 	return ""
 }
 
-const libPathPrefix = "github.com/github/go-spdx/v2/"
 
 // runHarness starts one harness process with GOMAXPROCS=gmp and waits for it.
 func runHarness(bin string, gmp int, wall time.Duration, args ...string) procOut {
